@@ -58,7 +58,7 @@ func allMapRanges(p *Prog) []mapRange {
 
 func checkC06(c *Ctx) {
 	r, p := c.R, c.P
-	r.Explanation = "Decides that nothing the Go runtime randomises or that differs between runs can reach the generated Rego or the report through the module's own code. (D1) Every range over a map in the module is analysed: its body's effects must be confined to the current key/value, to other maps indexed by the current key, to commutative accumulation, or to a slice that is sorted after the loop before any other use; otherwise the iteration order escapes. (D2) Census, over the functions reachable from the library's entry points, of every other nondeterminism source: time.Now (allowed only in the event constructor and in the default validation configuration's clock), math/rand, crypto/rand, os.Getenv/Environ, select, goroutines, reflect map iteration, and pointer-typed operands of formatting calls (an address in generated text); a pointer operand is accepted only when it is dead: guarded by `*p > 0` while every store to a cell of that type in the package writes the constant 0. (D4) No package-level variable is written in reach of the entry points (plain, through an alias, under a lock, sync.Map, atomic store/swap; monotone atomic increments excepted), so nothing an earlier call computed can reach a later call's output. (D3) Shared mutable state is excluded by C10's rules, re-checked here for the one shared counter: it is monotone (no reset in reach of the entry points). Ordering inside OPA (sets are serialised sorted) and encoding/json (map keys sorted) is the documented, trusted base."
+	r.Explanation = "Decides that nothing the Go runtime randomises or that differs between runs can reach the generated Rego or the report through the module's own code. (D1) Every range over a map in the module is analysed: its body's effects must be confined to the current key/value, to other maps indexed by the current key, to commutative accumulation, or to a slice that is sorted after the loop before any other use; otherwise the iteration order escapes. (D2) Census, over the functions reachable from the library's entry points, of every other nondeterminism source: time.Now (allowed only in the event constructor and in the default validation configuration's clock), math/rand, crypto/rand, os.Getenv/Environ, deadlines and timers (context.WithTimeout/WithDeadline, time.After/AfterFunc/NewTimer/Tick), select, goroutines, reflect map iteration, and pointer-typed operands of formatting calls (an address in generated text); a pointer operand is accepted only when it is dead: guarded by `*p > 0` while every store to a cell of that type in the package writes the constant 0. (D4) No package-level variable is written in reach of the entry points (plain, through an alias, under a lock, sync.Map, atomic store/swap; monotone atomic increments excepted), so nothing an earlier call computed can reach a later call's output. (D3) Shared mutable state is excluded by C10's rules, re-checked here for the one shared counter: it is monotone (no reset in reach of the entry points). Ordering inside OPA (sets are serialised sorted) and encoding/json (map keys sorted) is the documented, trusted base."
 	r.Declines = []string{"OPA's serialisation order of sets and encoding/json's key order (documented sorted; trusted)", "json-gold's node order and blank-node labels"}
 	r.Trusted = []string{"sort.Strings/sort.Sort are deterministic", "encoding/json sorts map keys", "OPA serialises sets in sorted order"}
 	r.Rule("C06.D1", "map iteration order never escapes a loop", 5)
@@ -116,6 +116,9 @@ func checkC06(c *Ctx) {
 						} else {
 							r.Bad("C06.D2", k, p.Pos(ins.Pos()), "the wall clock is read in "+FuncKey(fn)+", outside the event constructor and the configured clock: its value can reach the output")
 						}
+					case name == "context.WithTimeout" || name == "context.WithDeadline" || name == "context.WithTimeoutCause" || name == "context.WithDeadlineCause" || name == "time.After" || name == "time.AfterFunc" || name == "time.NewTimer" || name == "time.Tick" || name == "time.NewTicker":
+						sources++
+						r.Bad("C06.D2", ord.next(FuncKey(fn)+"#"+name), p.Pos(ins.Pos()), name+": a deadline or timer in reach of the entry points makes the outcome depend on how long the work takes on this machine under this load (a report in one run, a cancellation error in another)")
 					case strings.HasPrefix(name, "math/rand.") || strings.HasPrefix(name, "(*math/rand.") || strings.HasPrefix(name, "crypto/rand.") || strings.HasPrefix(name, "math/rand/v2."):
 						sources++
 						r.Bad("C06.D2", ord.next(FuncKey(fn)+"#"+name), p.Pos(ins.Pos()), "random numbers in reach of the entry points")
